@@ -98,9 +98,13 @@ def bulk_docs(tier):
     for a in one:
         yield [a]
     red = []
-    for status, action in ((201, "index"), (429, "index"), (500, "delete")):
-        for shards in (None, 1):
-            for err in (None, {"type": "t", "reason": "a"}, {"type": "t", "reason": '"sort":[1]'}, "str"):
+    red_status = ((201, "index"), (429, "index"), (500, "delete")) if tier == "quick" else statuses
+    red_shards = (None, 1) if tier == "quick" else (None, 0, 1)
+    red_errs = (None, {"type": "t", "reason": "a"}, {"type": "t", "reason": '"sort":[1]'}, "str") if tier == "quick" else (
+        None, {"type": "t", "reason": "a"}, {"type": "t", "reason": '"sort":[1]'}, "str", {"type": "no_reason"}, {"type": "t", "reason": 'x"]y'}, {"type": "t", "reason": "é"})
+    for status, action in red_status:
+        for shards in red_shards:
+            for err in red_errs:
                 if status < 300 and err is not None:
                     continue
                 red.append(item(action, status, shards, err))
@@ -210,10 +214,10 @@ def search_docs(tier):
     """yields (doc dict, feature list)"""
     for total_form in ("int", "object", "gte"):
         for nh in (0, 1, 2, 3):
-            sort_choices = SORTS if nh in (1, 2) else SORTS[:3]
+            sort_choices = SORTS if (nh in (1, 2) or tier == "thorough") else SORTS[:3]
             for sort in sort_choices if nh else [None]:
                 for after in AFTER if nh else [None]:
-                    for earlier_sort in ([1], ["a]b", 1]) if nh >= 2 else [None]:
+                    for earlier_sort in (([1], ["a]b", 1]) if tier == "quick" else ([1], ["a]b", 1], ['"sort":[1]'], None)) if nh >= 2 else [None]:
                         hits = []
                         for i in range(nh):
                             last = i == nh - 1
